@@ -173,3 +173,14 @@ func W[T any](p *T) *T {
 	}
 	return p
 }
+
+// AppendTo marks the write that append(s, ...) makes into the spare capacity of s's array (if there is any):
+// a write of the element just past len(s). It returns s.
+func AppendTo[T any](s []T) []T {
+	if cap(s) > len(s) {
+		if e := current(); e != nil && e.races != nil && len(e.gs) > 1 {
+			e.onAccess(unsafe.Pointer(&s[:len(s)+1][len(s)]), true, callerPC(2))
+		}
+	}
+	return s
+}
